@@ -387,6 +387,19 @@ func (x *seqExec) exec(op Op) {
 		g.W.WaitIdle()
 	case "dump":
 		g.H.VerifDumpHints()
+	case "merge":
+		// hint merge (never started automatically by the shipped code): produces *.idx.m, fills
+		// the collision table with same-hash groups, later lookups go through the merged index
+		if len(x.plan.Cfg.Served) > 0 {
+			b := x.plan.Cfg.Served[op.K%len(x.plan.Cfg.Served)]
+			g.H.VerifFlush(true)
+			g.H.VerifDumpHints()
+			if err := g.H.VerifMergeHints(b); err == nil {
+				x.out.probe("hint-merge-done")
+			} else {
+				x.out.probe("hint-merge-error")
+			}
+		}
 	case "advance":
 		// keep record timestamps inside the uint32 range of the on-disk format (and the
 		// simulated clock inside int64 nanoseconds)
